@@ -79,8 +79,11 @@ func (c *Conn) CloseRead(ctx context.Context) context.Context {
 		defer cancel()
 		defer c.close()
 		_, _, err := c.Reader(ctx)
-		if err == nil {
-			c.Close(StatusPolicyViolation, "unexpected data message")
+		if err == nil && c.casClosing() {
+			// Not c.Close: it waits for this very goroutine to exit, which made the
+			// returned context outlive the connection by the 15s that wait takes
+			// to give up. The deferred calls above do the rest of what Close does.
+			c.closeHandshake(StatusPolicyViolation, "unexpected data message")
 		}
 	}()
 	return ctx
